@@ -205,6 +205,13 @@ theorem c08_http_status (status : Nat) :
     have : ¬ (400 ≤ status) := by omega
     simp [httpStatusError, this]
 
+example : httpStatusError 403 [] = some "katdal.chunkstore_s3.AuthorisationFailed" ∧
+    httpStatusError 409 [409] = none ∧ httpStatusError 503 [] = some unavailable ∧
+    httpStatusError 204 [] = none := by decide
+example : classify TablesC08.npyErrorMap (mroOf "FileNotFoundError") = some notFound ∧
+    classify TablesC08.npyErrorMap (mroOf "KeyError") = none ∧
+    classify TablesC08.baseErrorMap (mroOf notFound) = some notFound := by decide
+
 /-! ### 4. Only ChunkNotFound becomes a default value / placeholder -/
 
 /-- an error is swallowed exactly when it is an instance of a caught class -/
